@@ -113,8 +113,9 @@ fn ell_choice(idx: usize, c: &mut Cur) -> (String, f64, f64) {
         return (name.to_string(), a, if rf == 0.0 { 0.0 } else { 1.0 / rf });
     }
     let a = if u1 > 0.75 { rd(10f64.powf(lin(u2, 0.0, 6.845)), 3).max(1.0) } else { rd(lin(u2, 6.2e6, 6.5e6), 3) };
-    // (nearly spherical bodies beyond rf = 1e5 are left out: qs() loses digits as 1/e^2 there)
-    let rf = if u3 < 0.1 { 150.0 } else if u3 > 0.95 { rd(lin(u3, -8.0e5, 1.0e5), 0).max(1.0e4) } else { rd(lin(u3, 150.0, 600.0), 6) };
+    // nearly spherical bodies (rf >> 1000, but not a sphere) are left out: ancillary::qs loses
+    // digits as eps/e^2 there (laea: 2.5 um at rf = 1e6, 100 um close to a pole at rf = 1e5)
+    let rf = if u3 < 0.1 { 150.0 } else { rd(lin(u3, 150.0, 600.0), 6) };
     (format!("{a},{rf}"), a, 1.0 / rf)
 }
 /// Earth sized built-in ellipsoids (for pipelines, molodensky pairs)
@@ -895,7 +896,19 @@ fn build_projection(raw: &Raw, op: &str, aspect: &str, mut c: Cur, mut ell: Stri
             let l0 = lon_0(&mut c, &mut def, wrap);
             false_origin(&mut c, &mut def);
             ellps(&mut def, &mut c);
-            pts = raw.pts.iter().map(|p| { let (lon, lat) = disc(p, l0, lat0, 148.0); geo2(lon, lat, p) }).collect();
+            pts = raw
+                .pts
+                .iter()
+                .map(|p| {
+                    let (mut lon, mut lat) = disc(p, l0, lat0, 148.0);
+                    if p[4] > 0.84 && p[4] < 0.88 {
+                        // 0.0001 .. 1 degree from the geographic pole on the side of the centre
+                        lat = (90.0 - 10f64.powf(-4.0 * p[1])).to_radians() * if lat0 < 0.0 { -1.0 } else { 1.0 };
+                        lon = (l0 + lin(p[0], -180.0, 180.0)).to_radians();
+                    }
+                    geo2(lon, lat, p)
+                })
+                .collect();
         }
         "omerc" => {
             let south = aspect.ends_with("south") || (!aspect.ends_with("north") && c.flag(0.5));
@@ -1017,8 +1030,24 @@ fn build_file_case(raw: &Raw) -> Case {
         .pts
         .iter()
         .map(|p| {
-            let lat = lin(p[1], lat_s + 0.05 * (lat_n - lat_s), lat_n - 0.05 * (lat_n - lat_s)).to_radians();
-            let lon = lin(p[0], lon_w + 0.05 * (lon_e - lon_w), lon_e - 0.05 * (lon_e - lon_w)).to_radians();
+            let mut lat = lin(p[1], lat_s + 0.05 * (lat_n - lat_s), lat_n - 0.05 * (lat_n - lat_s));
+            let mut lon = lin(p[0], lon_w + 0.05 * (lon_e - lon_w), lon_e - 0.05 * (lon_e - lon_w));
+            if name == "5458_with_subgrid.gsb" {
+                // the synthetic sub-grid (55..56 N, 12..14 E) is not continuous with its parent: the
+                // shift jumps at its border, where a shift of 0.016 degrees is not invertible. Stay
+                // 0.1 degree away from the border (real NTv2 sub-grids are continuous by construction)
+                for edge in [55.0, 56.0] {
+                    if (lat - edge).abs() < 0.1 {
+                        lat += 0.25;
+                    }
+                }
+                for edge in [12.0, 14.0] {
+                    if (lon - edge).abs() < 0.1 {
+                        lon += 0.25;
+                    }
+                }
+            }
+            let (lat, lon) = (lat.to_radians(), lon.to_radians());
             let h = rd(lin(p[2], -100.0, 3000.0), 3);
             if op == "deformation" {
                 let xyz = el.cartesian(lon, lat, h);
@@ -1250,6 +1279,10 @@ fn grid_lipschitz(g: &GridSpec, el: &El) -> (f64, f64) {
 /// tolerance in ground metres for the tuple x (in the input space of the operator)
 fn tol_m(case: &Case, el: &El, x: &Coor4D) -> f64 {
     match case.op.as_str() {
+        // the authalic latitude is obtained as asin(q/qp): close to a geographic pole its
+        // rounding error grows as eps a/cos(lat): measured up to 6 eps a/cos(lat), i.e. 3 um at 0.03 degrees
+        // and 3 mm at 0.0001 degrees (11 m) from the pole; everywhere else the 10 um class level rules
+        "laea" => TOL_RIGOROUS + 24.0 * EPS * el.a / x[1].cos().abs().max(1e-9),
         "pipeline:geo" | "pipeline:gis" | "pipeline:rad" => case.q[0].0 + 3.0 * (el.a + 3000.0) * case.q[1].0,
         "helmert" => {
             let r = (x[0] * x[0] + x[1] * x[1] + x[2] * x[2]).sqrt();
@@ -1338,7 +1371,7 @@ impl Judge<'_> {
 
     /// compare `back` with `start` (both in space sp); `img` is the intermediate image
     #[allow(clippy::too_many_arguments)]
-    fn compare(&self, rec: &mut Rec, order: &str, sp: Sp, start: &[Coor4D], img: &[Coor4D], back: &[Coor4D], ground: Option<&[Option<f64>]>) -> CaseResult {
+    fn compare(&self, rec: &mut Rec, order: &str, sp: Sp, start: &[Coor4D], img: &[Coor4D], back: &[Coor4D], ground: Option<&[Option<f64>]>, start_is_input: bool) -> CaseResult {
         let case = self.case;
         let t = touched(&case.op, &case.aspect);
         let exact = exact_mode(case);
@@ -1384,7 +1417,8 @@ impl Judge<'_> {
                         },
                         None => err_m(sp, &self.el, x, b),
                     };
-                    let tol = tol_m(case, &self.el, x);
+                    // the tolerance formulas refer to the tuple in the operator's input space
+                    let tol = tol_m(case, &self.el, if start_is_input || spaces(&case.op).0 == spaces(&case.op).1 { x } else { a });
                     if !(e <= tol) {
                         return Err(self.fail(order, i, x, a, b, e, tol, "m"));
                     }
@@ -1504,14 +1538,14 @@ fn check_with<C: Context>(ctx: &mut C, case: &Case, rec: &mut Rec) -> CaseResult
     // ---- forward, then inverse
     let a = run_op(ctx, op, true, &x0, def)?;
     let b = run_op(ctx, op, false, &a, def)?;
-    judge.compare(rec, "forward then inverse", insp, &x0, &a, &b, None)?;
+    judge.compare(rec, "forward then inverse", insp, &x0, &a, &b, None, true)?;
 
     // ---- inverse, then forward, from the 1 mm lattice image
     let y: Vec<Coor4D> = a.iter().map(|c| lattice(outsp, c, &el)).collect();
     let x = run_op(ctx, op, false, &y, def)?;
     let y2 = run_op(ctx, op, true, &x, def)?;
     let ground = if outsp == Sp::Plane || outsp == Sp::Any { Some(jacobian_ground(ctx, op, def, insp, &el, &x0, &a, &y, &y2)?) } else { None };
-    judge.compare(rec, "inverse then forward (from the 1 mm lattice image)", outsp, &y, &x, &y2, ground.as_deref())?;
+    judge.compare(rec, "inverse then forward (from the 1 mm lattice image)", outsp, &y, &x, &y2, ground.as_deref(), false)?;
 
     // ---- the inv modifier: `op inv` forward == `op` inverse, bit for bit (and vice versa)
     for after_name in [false, true] {
@@ -1746,6 +1780,10 @@ fn main() {
     run.assume("ground metres are measured on the ellipsoid the operator is given (M and N radii of the harness), longitudes and azimuths modulo 360 degrees");
     run.assume("tolerance classes: bit-identical for noop/axisswap/adapt without unit change/integer translations; <= 2-4 ulp of the larger intermediate for general translations and unit scalings; 10 um rigorous class (cart 1 um / 1 mm by height class); 5 mm for btmerc/butm/omerc; molodensky 4 d^2/(a cos(lat)) + 0.1 mm (first order method, d = |shift|+|da|+a|df| <= 400 m); small-angle helmert 3|x||r|^2 (transposed matrix is not the exact inverse); deformation 6 dt^2 |v|max Lip(v) + 1 um (the operator documents that it does not iterate)");
     run.assume("inverse-then-forward errors of projections are converted to the ground through the numerical Jacobian of the library's own forward function (points within 0.01 degree of a pole skipped)");
+    run.assume("laea: 10 um + 24 eps a/cos(lat): the authalic latitude is computed as asin(q/qp), whose rounding error grows towards the geographic poles (measured 3 um at 0.03 degrees, 3 mm at 0.0001 degrees from a pole); somerc: 3e-10 e^2 a + 0.2 um and geodesic: 3e-12 a + 1 um follow from the stopping rules of their iterations; cart above 100 km: 1 mm scaled by (f/f_GRS80)^2 for flatter ellipsoids (measured 0.36 mm on GRS80, 1.01 mm on mprts at h = 8e6 m)");
+    run.assume("random ellipsoids: a in [1, 7e6], 1/f in [150, 600]; nearly spherical non-spheres are not generated (ancillary::qs loses digits as eps/e^2)");
+    run.assume("antimeridian class ('wrap'): longitudes are given in (-180, 180] with a central meridian within 15 degrees of +-180, so that lon - lon_0 is numerically ~360 degrees for points geometrically close to the central meridian");
+    run.assume("grid operators: generated Gravsoft grids are smooth (contraction constant < 0.01) and points lie in the central 80-90 % of the coverage; in the shipped 5458_with_subgrid.gsb the sub-grid is not continuous with its parent (1 arcsec jump), so points within 0.1 degree of the sub-grid border are moved away from it");
     run.assume("geodesic reversible: distances 1 m .. 18 000 km (scaled with a), |lat| <= 89 degrees; Vincenty's near-antipodal zone excluded by construction");
 
     // operators of the library the catalogue does not cover
@@ -1770,7 +1808,7 @@ fn main() {
     );
 
     // 1. every catalogue entry x every ellipsoid (47 built-in + one random), deterministic draws
-    let reps = run.scale(4, 24);
+    let reps = run.scale(10, 96);
     let npts = if run.is_thorough() { 256 } else { 64 };
     let nk = KINDS.len();
     let seed = run.seed;
@@ -1787,7 +1825,7 @@ fn main() {
     );
 
     // 2. random operator instances
-    let n = run.scale(40_000, 700_000);
+    let n = run.scale(120_000, 2_800_000);
     let maxpts = if run.is_thorough() { 256 } else { 128 };
     run.section(
         "operators-random",
@@ -1799,7 +1837,7 @@ fn main() {
 
     // 2b. the grid files shipped with the library, inside their coverage
     let nf = FILE_GRIDS.len();
-    let reps = run.scale(30, 300);
+    let reps = run.scale(60, 600);
     run.sweep(
         "shipped-grids",
         "gridshift / deformation with each grid file shipped in /repo/geodesy (Gravsoft datum, geoid, deformation; NTv2 with and without sub-grid), served by GridCtx, points in the central 90 % of the coverage",
@@ -1809,7 +1847,7 @@ fn main() {
     );
 
     // 3. typed pipelines and macros
-    let n = run.scale(15_000, 300_000);
+    let n = run.scale(45_000, 1_200_000);
     run.section(
         "pipelines",
         "type-correct pipelines (external lat/lon degrees | lon/lat degrees | radians -> 0..2 datum shifts cart|helmert|cart inv -> optional projection utm/tmerc/merc/webmerc/lcc/laea/omerc/btmerc -> output adaptors), plain or wrapped in sub-chain / whole / nested / parameterised macros; points within 2 degrees of a random centre; tolerance = sum of the step tolerances; macro invocations also get the inv twin check",
